@@ -132,6 +132,46 @@ def etree_iter_strings(elem: Union[DocumentProtocol, ElementProtocol],
                 yield e.tail
 
 
+def etree_iter_document_strings(elem: Union[DocumentProtocol, ElementProtocol],
+                                normalize: bool = False) -> Iterator[str]:
+    """
+    Iterates the text chunks of an element or a document in document order: the tail of
+    a node follows the strings of its descendants. Use this for computing string values.
+    """
+    e: ElementProtocol
+    if hasattr(elem, 'getroot'):
+        root = cast(DocumentProtocol, elem).getroot()
+        if root is None:
+            return
+    else:
+        root = cast(ElementProtocol, elem)
+
+    if callable(root.tag):
+        return
+    elif root.text is not None:
+        yield root.text.strip() if normalize else root.text
+
+    children: Iterator[ElementProtocol] = iter(root)
+    iterators: list[tuple[Iterator[ElementProtocol], ElementProtocol]] = []
+    while True:
+        for e in children:
+            if not callable(e.tag):
+                if e.text is not None:
+                    yield e.text
+                if len(e):
+                    iterators.append((children, e))
+                    children = iter(e)
+                    break
+            if e.tail is not None:
+                yield e.tail.strip() if normalize and not iterators else e.tail
+        else:
+            if not iterators:
+                return
+            children, e = iterators.pop()
+            if e.tail is not None:
+                yield e.tail.strip() if normalize and not iterators else e.tail
+
+
 def etree_deep_equal(e1: ElementProtocol, e2: ElementProtocol) -> bool:
     if e1.tag != e2.tag:
         return False
@@ -294,5 +334,6 @@ def etree_tostring(elem: ElementType,
 
 __all__ = ['SafeExpatParser', 'defuse_xml', 'is_etree_element', 'is_lxml_etree_element',
            'is_etree_element_instance', 'is_etree_document', 'is_lxml_etree_document',
-           'is_etree_document_instance', 'etree_iter_strings', 'etree_deep_equal',
+           'is_etree_document_instance', 'etree_iter_strings', 'etree_iter_document_strings',
+           'etree_deep_equal',
            'etree_iter_paths', 'etree_tostring']
